@@ -72,7 +72,7 @@ def main():
                      "serves_properties": sorted(claimed),
                      "kind_free_text": "Coq 8.16.1 development (coq/), extracted OCaml driver (build/driver), Python harness (harness/) for proof-obligation checking and model/implementation correspondence"}],
         "checks": checks,
-        "notes": "Fix commits in /repo are listed in known_findings.json (fixed: entries). See DESIGN.md.",
+        "notes": "Fix commits in /repo are listed in known_findings.json (fixed: entries); known findings recorded rather than repaired: D7 (C20), F9 and F10 (C10), each with a witness, a class and a Coq refutation theorem. See DESIGN.md section 0.",
         "not_applicable": na,
     }
     json.dump(man, open(os.path.join(VERIF, "MANIFEST.json"), "w"), indent=1)
